@@ -1,7 +1,7 @@
 CHECKS["C19"] = dict(
     overlay_dirs={**KIT, "verifx/c19": "harness/x/c19"},
     units=[unit("c19", "./verifx/c19", "^TestC19", shards=(8, 16), timeout=(600, 3000)),
-           unit("c19fuzz", "./verifx/c19", "^$", fuzz="FuzzC19Bitfield", fuzztime={"quick": 20, "thorough": 180}, fuzzworkers=8,
+           unit("c19fuzz", "./verifx/c19", "^$", fuzz="FuzzC19Bitfield", fuzztime={"quick": 20, "thorough": 120}, fuzzworkers=8,
                 shards=(1, 1), timeout=(300, 600), tiers=("thorough",))],
     rule=("bit-field histories: rapid-generated sequences of Add/Contains/Len/ForEach/RangeWhile(stop at call k)/rebuild-from-Bytes() "
           "over ids 1..300 (weighted to 8k-1, 8k, 8k+1, re-insertion of earlier ids and their neighbours), optionally starting from "
